@@ -43,7 +43,10 @@ type msg = { m_id : int; m_qr : bool; m_opcode : int; m_tc : bool; m_rd : bool; 
              m_qd : (string * int * int) list; m_opt : bool; m_cookie : int list option; m_nopts : int;
              m_tag : int option; m_minttl : int; m_soa : bool }
 exception Bad
+let bad_why = ref ""
+let bad w = bad_why := w; raise Bad
 let parse_msg (b : int array) : msg option =
+  bad_why := "truncated or malformed";
   let n = Array.length b in
   let u8 o = if o < n then b.(o) else raise Bad in
   let u16 o = (u8 o) * 256 + u8 (o + 1) in
@@ -84,13 +87,17 @@ let parse_msg (b : int array) : msg option =
     let flags = u16 2 in
     let qd = u16 4 and an = u16 6 and ns = u16 8 and ar = u16 10 in
     (* ares_dns_parse: exactly one question; ares_dns_record_create: known opcode *)
-    if qd <> 1 then raise Bad;
+    if qd <> 1 then bad "QDCOUNT is not 1";
     if not (List.mem ((flags lsr 11) land 15) [0; 1; 2; 4; 5]) then raise Bad;
     let off = ref 12 in
     let qs = ref [] in
     for _ = 1 to qd do
       let (nm, o) = name !off 0 [] in
       let t = u16 o and c = u16 (o + 2) in
+      (* RAW 16 bit values of the wire.  ares_dns_record_query_add: class must be IN, CH, HS, NONE
+         or ANY - anything else (0, 0x8001, 0x0101, ...) makes the message unparsable; any 16 bit
+         type may be asked *)
+      if not (List.mem c [1; 3; 4; 254; 255]) then bad (Printf.sprintf "question class 0x%04x is none of IN/CH/HS/NONE/ANY" c);
       qs := (nm, t, c) :: !qs; off := o + 4
     done;
     let cookie_seen = ref false in
@@ -98,7 +105,12 @@ let parse_msg (b : int array) : msg option =
     and soa = ref false and ext = ref 0 in
     for i = 1 to an + ns + ar do
       let (_, o) = name !off 0 [] in
-      let t = u16 o and ttl = u32 (o + 4) and rdlen = u16 (o + 8) in
+      let t = u16 o and rcls = u16 (o + 2) and ttl = u32 (o + 4) and rdlen = u16 (o + 8) in
+      (* ares_dns_record_rr_add: a record of a type the library knows must have class IN, CH, HS or
+         NONE (ANY only for SIG); records of unknown types are kept raw with any class; for OPT
+         the class field is the UDP size *)
+      let known = List.mem t [1; 2; 5; 6; 12; 13; 15; 16; 24; 28; 33; 35; 52; 64; 65; 255; 256; 257] in
+      if t <> 41 && known && not (List.mem rcls [1; 3; 4; 254] || (rcls = 255 && t = 24)) then bad (Printf.sprintf "record class 0x%04x is not a class" rcls);
       let rd = o + 10 in
       if rd + rdlen > n then raise Bad;
       if t = 41 then begin
@@ -247,6 +259,7 @@ let run_case k (caseline : string) (lines : string list) =
   let last_new : query option ref = ref None in
   let in_cancel = ref false in
   (* inertness monitor: what happened since the last synchronisation point *)
+  let seg_malformed : (int * int * string) list ref = ref [] in
   let sync_view : view option ref = ref None in
   let seg_dirty = ref false and seg_other = ref 0 and seg_effects = ref 0 and clock_moved = ref false in
   let label = ref "nolabel" in
@@ -445,7 +458,7 @@ let run_case k (caseline : string) (lines : string list) =
             ignore (apply (ESetCookie (zi vs.vs_idx, vck)) "ESetCookie")
           end) v.vss;
     seg_tx := []; seg_reads := []; marks_used := [];
-    sync_view := Some v; seg_dirty := false; seg_other := 0; seg_effects := 0;
+    sync_view := Some v; seg_dirty := false; seg_other := 0; seg_effects := 0; seg_malformed := [];
     last_view := Some v; dirty := false;
     snap := !st in
   (* ----- datagrams read from sockets are fed to the model LAZILY, in log order -----
@@ -471,7 +484,14 @@ let run_case k (caseline : string) (lines : string list) =
                                                      | 6 -> "reject-cookie" | _ -> "reject-other"));
          if r = 3 then Hashtbl.replace feats "stale" ();
          if r = 6 then Hashtbl.replace feats "cookie" ()
-       | DMalformed _ -> incr seg_other; bump "datagram-malformed"; Hashtbl.replace feats "malformed" ()
+       | DMalformed _ ->
+         incr seg_other; bump "datagram-malformed"; Hashtbl.replace feats "malformed" ();
+         (* the provenance tag of a message that does not parse: the A RDATA 11.a.b.c after RDLENGTH 4 *)
+         let n = Array.length b in
+         let rec scan i = if i + 5 >= n then None
+           else if b.(i) = 0 && b.(i + 1) = 4 && b.(i + 2) = 11 then Some (b.(i + 3) * 65536 + b.(i + 4) * 256 + b.(i + 5))
+           else scan (i + 1) in
+         (match scan 12 with Some tg -> seg_malformed := (tg, sock, !bad_why) :: !seg_malformed | None -> ())
        | DEmpty -> incr seg_other; bump "datagram-empty");
       let outs = apply (ERead (zi sock, zi src, zi (now_sec ()), zi (now_usec ()), d)) (Printf.sprintf "ERead s%d" sock) in
       List.iter (fun o ->
@@ -800,8 +820,12 @@ let run_case k (caseline : string) (lines : string list) =
                  let reads = List.filter (fun r -> iz r.r_pkt.p_tag = tg) !seg_reads in
                  (match reads with
                   | [] ->
-                    if not (wrapped && Hashtbl.mem auth_delivered tg) then
-                      fail "unauthentic-delivery" "t%d received the record of packet %d, which was not read since the last state dump" t tg
+                    (match List.find_opt (fun (g, _, _) -> g = tg) !seg_malformed with
+                     | Some (_, sk, why) ->
+                       fail "unauthentic-delivery" "t%d received the record of packet %d read on s%d, whose raw octets are not an acceptable message (%s): it matches no question" t tg sk why
+                     | None ->
+                       if not (wrapped && Hashtbl.mem auth_delivered tg) then
+                         fail "unauthentic-delivery" "t%d received the record of packet %d, which was not read since the last state dump" t tg)
                   | _ ->
                     let ok_tok = function Some tok -> wrapped || iz tok = t | None -> false in
                     let ok = List.exists (fun r ->
